@@ -489,6 +489,11 @@ impl DrawExecutor {
             i += 2;
         }
 
+        // only scan lines and spans inside the screen can be drawn
+        let res = self.get_resolution();
+        let y_min = y_min.max(0);
+        let y_max = y_max.min(res.height - 1);
+
         // VDI apparently loops over the scan lines from bottom to top
         for y in (y_min..=y_max).rev() {
             // Set up counter for vector intersections
@@ -572,7 +577,7 @@ impl DrawExecutor {
                 let x1 = edge_buffer[j];
                 let x2 = edge_buffer[j + 1];
                 // Fill in all pixels horizontally from (x1, y) to (x2, y)
-                for k in x1..=x2 {
+                for k in x1.max(0)..=x2.min(res.width - 1) {
                     self.fill_pixel(k, y);
                 }
                 j += 2;
